@@ -67,6 +67,9 @@ def parse_url(url: str) -> tuple:
     else:
         resource = "/"
 
+    if parsed.params:
+        resource += f";{parsed.params}"
+
     if parsed.query:
         resource += f"?{parsed.query}"
 
